@@ -3,7 +3,7 @@
 From Coq Require Import ExtrOcamlBasic.
 From Coq Require Import List NArith.
 Require Import PV.Lines.Text PV.Lines.Suppress PV.Lines.Place PV.Lines.Fixer PV.Gen.Codes PV.Gen.ApplyGen.
-Require Import PV.Proofs.LinesFixer.
+Require Import PV.Proofs.LinesFixer PV.Gen.RangeGen.
 
 Definition fix_step_i (st : N -> bool) (f : file) (raw : list diag) :=
   fix_step IGNORE_COMMENT code_name st unused_ignore_code bare_ignore_code f raw.
@@ -14,4 +14,5 @@ Definition emit16_i (st : N -> bool) (f : file) (raw : list diag) :=
 Definition clauses_i (st : N -> bool) (f : file) (raw : list diag) :=
   (fix_guardb f raw, forallb (fun d => d_obey d) raw).
 Definition apply_i := ApplyGen.apply_changes.
-Extraction "c16model.ml" fix_step_i emit16_i clauses_i apply_i mem_N.
+Definition line_range_i := RangeGen.line_range.
+Extraction "c16model.ml" fix_step_i emit16_i clauses_i apply_i line_range_i mem_N.
